@@ -62,3 +62,12 @@ Print Assumptions C15_transient_reverted_with_frame.
 Example C15_example_overlap :
   mem_copy [1;2;3;4;5;6;7;8] 2 0 5 = [1;2;1;2;3;4;5;8] /\ mem_copy [1;2;3;4;5;6;7;8] 0 2 5 = [3;4;5;6;7;6;7;8].
 Proof. split; reflexivity. Qed.
+
+From Verif Require Import Model.MemSize Model.MemGas Proofs.MemGas_proofs.
+(** the expansion fee in [C15_mcopy_gas] is Model/Mem.v's [memory_gas_cost], which takes lastGasCost to be the fee of the current
+    length; with the Memory object's bookkeeping as state (Model/MemGas.v) that is an invariant of every live frame, and the
+    64-bit computation of the code yields the same fee *)
+Theorem C15_expansion_fee_from_bookkeeping : forall st n fee last',
+  mg_inv st -> n mod 32 = 0 -> memory_gas_cost64 st n = Ok (fee, last') -> memory_gas_cost (fst st) n = Ok fee.
+Proof. exact memory_gas_cost64_agrees. Qed.
+Print Assumptions C15_expansion_fee_from_bookkeeping.
